@@ -33,6 +33,16 @@
 //!                                     `--foreign-types` file: exit status 0 or 1; status 0 iff `<stem>.ui` was written and, without
 //!                                     --no-dynamic-binding, `uisupport_<stem>.h` (names compared ignoring letter case: FileNameRules
 //!                                     lower-cases ASCII letters only); status 1 only with a report that names the file.
+//!   (c07-set (files (f "dir" "Stem" "text")…) (sources (s "dir/Stem.qml" reject|accept|any)…))
+//!                                     COMPONENT SET, in-process: the files are written below a fresh directory under
+//!                                     std::env::temp_dir(), ONE type map and document cache is filled by
+//!                                     qmldir::populate_directories for all sources (like generate-ui), every source is
+//!                                     translated in all three modes under the totality oracle (the project diagnostics too);
+//!                                     `reject` (the document instantiates a component whose chain of roots never reaches a Qt
+//!                                     class): accepted in no mode; `accept`: accepted in the generate and omit modes.
+//!   (c07-cli-set generate|reject (files …) (sources …))   the same set through the real CLI, all sources on one command
+//!                                     line: exit 0 or 1 within 20 s, 0 iff every `.ui` was written, 1 only with a report, a
+//!                                     `reject` source never written, an `accept` source written whatever happens to the others.
 //!   (c07-cli-gen generate|reject KIND N)   same, on a text generated here: KIND ∈ sum | objects | parens | array | ternary |
 //!                                     unary | member | block (N nesting levels) — deep inputs are tested ONLY this way
 //!                                     (finding F11: stack exhaustion; the in-process inputs keep nesting ≤ 60).
@@ -68,11 +78,15 @@ use qmluic_cli::reporting;
 use std::panic::{catch_unwind, AssertUnwindSafe};
 use std::time::{Duration, Instant};
 
+mod boundary_consts;
+mod component_sets;
 mod trivia;
 mod unicode_ids;
 
 pub struct C07 {
     tm: TypeMap,
+    /// the classes of `tm` (Qt + adversarial + foreign, tweaked): a component-set case fills a type map of its own
+    classes: Vec<qmluic::metatype::Class>,
     /// (origin label, text): /repo/examples/*.qml and the r###"…"### blocks of /repo/tests/*.rs
     bases: Vec<(String, String)>,
     /// outcomes of trivia base documents (many trivia cases share one base document)
@@ -621,6 +635,9 @@ impl C07 {
         // module of QML components with non-ASCII names (seen only by documents parsed with a path inside VIRTUAL_DIR)
         let mut classes = env::adversarial_classes();
         classes.extend(unicode_ids::foreign_classes());
+        let mut all_classes = env::load_qt_classes();
+        all_classes.extend(classes.iter().cloned());
+        qmluic::metatype_tweak::apply_all(&mut all_classes);
         let mut tm = env::load_type_map_with(classes);
         let mut dir_module = qmluic::typemap::ModuleData::default();
         for name in unicode_ids::virtual_components() {
@@ -629,7 +646,7 @@ impl C07 {
             dir_module.push_qml_component(data);
         }
         tm.insert_module(qmluic::typemap::ModuleIdBuf::Directory(unicode_ids::VIRTUAL_DIR.into()), dir_module);
-        C07 { tm, bases, base_cache: Default::default() }
+        C07 { tm, classes: all_classes, bases, base_cache: Default::default() }
     }
 }
 
@@ -1013,7 +1030,7 @@ impl DocName {
 }
 
 fn check_mode_as(tm: &TypeMap, src: &str, name: &DocName, mode: Mode) -> Result<ModeStats, String> {
-    let mut st = ModeStats::default();
+    // (statistics are collected by check_doc)
     // tree-sitter (third-party GLR parser with error recovery) runs inside `UiDocument::parse`
     crate::set_phase("tree-sitter-parse");
     let doc = UiDocument::parse(src, name.type_name.as_str(), name.path());
@@ -1021,6 +1038,13 @@ fn check_mode_as(tm: &TypeMap, src: &str, name: &DocName, mode: Mode) -> Result<
     if doc.source() != src {
         return Err("document source differs from the input".into());
     }
+    check_doc(tm, &doc, mode)
+}
+
+/// The totality oracle on a parsed document (one mode).
+fn check_doc(tm: &TypeMap, doc: &UiDocument, mode: Mode) -> Result<ModeStats, String> {
+    let mut st = ModeStats::default();
+    let src = doc.source();
     if doc.has_syntax_error() {
         let errors = doc.collect_syntax_errors();
         if errors.is_empty() {
@@ -1033,7 +1057,7 @@ fn check_mode_as(tm: &TypeMap, src: &str, name: &DocName, mode: Mode) -> Result<
             }
             let _ = e.to_string();
         }
-        render_all(&doc, reporting::make_reportable_syntax_errors(&errors))?;
+        render_all(doc, reporting::make_reportable_syntax_errors(&errors))?;
         st.syntax_errors = errors.len();
         return Ok(st);
     }
@@ -1042,7 +1066,7 @@ fn check_mode_as(tm: &TypeMap, src: &str, name: &DocName, mode: Mode) -> Result<
     }
     let ctx = BuildContext::prepare(tm, FileNameRules::default(), mode.handling()).map_err(|e| format!("BuildContext: {e}"))?;
     let mut diags = Diagnostics::new();
-    let r = uigen::build(&ctx, &doc, &mut diags);
+    let r = uigen::build(&ctx, doc, &mut diags);
     for d in diags.iter() {
         let br = d.byte_range();
         if !range_ok(src, br.start, br.end) || d.start_byte() != br.start || d.end_byte() != br.end {
@@ -1074,7 +1098,7 @@ fn check_mode_as(tm: &TypeMap, src: &str, name: &DocName, mode: Mode) -> Result<
     if diags.has_error() != (st.errors > 0) {
         return Err("Diagnostics::has_error disagrees with the diagnostics".into());
     }
-    render_all(&doc, reporting::make_reportable_diagnostics(&diags))?;
+    render_all(doc, reporting::make_reportable_diagnostics(&diags))?;
     match r {
         Some((form, sup)) => {
             st.built = true;
@@ -1689,6 +1713,299 @@ fn run_cli_job(src: &str, reject: bool, layout: CliLayout, job: &CliJob) -> Sexp
             )
         }
     }
+}
+
+// ---------------------------------------------------------------------------------------------- component sets
+
+/// `(files (f "dir" "Stem" "text")…) (sources (s "dir/Stem.qml" EXPECT)…)`
+struct SetRequest {
+    files: Vec<(String, String, String)>,
+    sources: Vec<(String, String)>,
+}
+
+fn parse_set_request(args: &[Sexp]) -> Option<SetRequest> {
+    let (ft, fs) = args.first()?.as_node()?;
+    let (st_, ss) = args.get(1)?.as_node()?;
+    if ft != "files" || st_ != "sources" {
+        return None;
+    }
+    let ok_dir = |d: &str| d.split('/').all(|c| !c.is_empty() && c.chars().all(|x| x.is_ascii_alphanumeric() || x == '_' || x == '-')) || d.is_empty();
+    let mut files = vec![];
+    for f in fs {
+        let (t, a) = f.as_node()?;
+        let (dir, stem, text) = (a.first()?.as_str()?, a.get(1)?.as_str()?, a.get(2)?.as_str()?);
+        if t != "f" || !ok_dir(dir) || stem.is_empty() || stem.contains('/') || stem.contains('\0') || stem.len() > 200 {
+            return None;
+        }
+        files.push((dir.to_owned(), stem.to_owned(), text.to_owned()));
+    }
+    let mut sources = vec![];
+    for x in ss {
+        let (t, a) = x.as_node()?;
+        let (path, expect) = (a.first()?.as_str()?, a.get(1)?.as_atom()?);
+        let known = files.iter().any(|(d, n, _)| path == if d.is_empty() { format!("{n}.qml") } else { format!("{d}/{n}.qml") });
+        if t != "s" || !known || !matches!(expect, "reject" | "accept" | "any") {
+            return None;
+        }
+        sources.push((path.to_owned(), expect.to_owned()));
+    }
+    Some(SetRequest { files, sources })
+}
+
+/// Writes the files below a fresh directory `<tmp>/qv-c07-set-…/o/r` (two levels of our own above the root of the set, so
+/// that `import "../lib"` never reaches anything of the machine); returns the guard and the canonical root.
+fn materialise_set(req: &SetRequest) -> Result<(tempfile::TempDir, camino::Utf8PathBuf), Sexp> {
+    let dir = tempfile::Builder::new().prefix("qv-c07-set-").tempdir_in(std::env::temp_dir()).map_err(|e| node("fail", vec![st("tempdir"), st(e.to_string())]))?;
+    let root = dir.path().join("o").join("r");
+    let io = |e: std::io::Error| node("fail", vec![st("write"), st(e.to_string())]);
+    std::fs::create_dir_all(&root).map_err(io)?;
+    let root = camino::Utf8PathBuf::from_path_buf(root.canonicalize().map_err(io)?).map_err(|_| node("fail", vec![st("non-UTF-8 temp dir")]))?;
+    if root.starts_with("/repo") || root.starts_with("/verif") {
+        return Err(node("fail", vec![st("temp dir inside the trees")]));
+    }
+    for (d, n, text) in &req.files {
+        let dp = if d.is_empty() { root.clone() } else { root.join(d) };
+        std::fs::create_dir_all(&dp).map_err(io)?;
+        std::fs::write(dp.join(format!("{n}.qml")), text).map_err(io)?;
+    }
+    Ok((dir, root))
+}
+
+fn accepted(s: &ModeStats) -> bool {
+    s.syntax_errors == 0 && s.built && s.errors == 0
+}
+
+impl C07 {
+    fn fresh_type_map(&self) -> TypeMap {
+        let mut type_map = TypeMap::with_primitive_types();
+        let mut md = qmluic::typemap::ModuleData::with_builtins();
+        md.extend(self.classes.clone());
+        type_map.insert_module(qmluic::typemap::ModuleId::Named("qmluic.QtWidgets"), md);
+        type_map
+    }
+
+    /// `(c07-set (files …) (sources …))`: the set is materialised, ONE type map and document cache is filled by
+    /// `qmldir::populate_directories` for all sources (like `generate-ui`), then every source is translated in all three
+    /// modes under the totality oracle; the project diagnostics of populate_directories are held to the range / rendering
+    /// clauses too.  EXPECT `reject`: accepted in no mode; `accept`: accepted in the generate and omit modes.
+    fn answer_set(&self, args: &[Sexp]) -> Sexp {
+        use qmluic::diagnostic::ProjectDiagnostics;
+        use qmluic::qmldoc::UiDocumentsCache;
+        let Some(req) = parse_set_request(args) else {
+            return node("bad-request", vec![]);
+        };
+        let (_guard, root) = match materialise_set(&req) {
+            Ok(x) => x,
+            Err(a) => return a,
+        };
+        // the documents are small and valid: the time goes to qmluic's own passes
+        crate::set_phase("qmluic");
+        let mut tm = self.fresh_type_map();
+        let mut cache = UiDocumentsCache::new();
+        let mut pd = ProjectDiagnostics::new();
+        let src_paths: Vec<camino::Utf8PathBuf> = req.sources.iter().map(|(p, _)| root.join(p)).collect();
+        match catch_unwind(AssertUnwindSafe(|| qmluic::qmldir::populate_directories(&mut tm, &mut cache, &src_paths, &mut pd))) {
+            Ok(Ok(())) => {}
+            Ok(Err(e)) => return node("fail", vec![st("populate_directories failed"), st(e.to_string().replace(root.as_str(), ""))]),
+            Err(e) => return node("panic", vec![st(panic_text(e)), node("phase", vec![atom("populate_directories")])]),
+        }
+        for (path, ds) in pd.iter() {
+            let Some(doc) = cache.get(path) else {
+                return node("fail", vec![st("project diagnostics for a document that is not in the cache"), st(path.as_str().replace(root.as_str(), ""))]);
+            };
+            for d in ds.iter() {
+                let r = d.byte_range();
+                if !range_ok(doc.source(), r.start, r.end) || d.labels().iter().any(|(l, _)| !range_ok(doc.source(), l.start, l.end)) {
+                    return node("fail", vec![st(format!("project diagnostic range {}..{} outside the text or not on character boundaries: {}", r.start, r.end, d.message()))]);
+                }
+            }
+            if let Err(e) = render_all(doc, reporting::make_reportable_diagnostics(ds)) {
+                return node("fail", vec![st(e)]);
+            }
+        }
+        let mut out = vec![node("project-diagnostics", vec![num(pd.iter().map(|(_, ds)| ds.len()).sum::<usize>())])];
+        for ((rel, expect), path) in req.sources.iter().zip(&src_paths) {
+            let Some(doc) = cache.get(path) else {
+                return node("fail", vec![st("source not loaded"), st(rel.clone())]);
+            };
+            let mut per_mode = vec![];
+            for mode in Mode::all() {
+                match catch_unwind(AssertUnwindSafe(|| check_doc(&tm, doc, mode))) {
+                    Ok(Ok(s)) => per_mode.push(s),
+                    Ok(Err(what)) => return node("fail", vec![st(what), node("mode", vec![atom(mode.name())]), node("source", vec![st(rel.clone())])]),
+                    Err(e) => return node("panic", vec![st(panic_text(e)), node("mode", vec![atom(mode.name())]), node("source", vec![st(rel.clone())])]),
+                }
+            }
+            let acc: Vec<bool> = per_mode.iter().map(accepted).collect();
+            if expect == "reject" && acc.iter().any(|a| *a) {
+                return node("fail", vec![st("a document that instantiates a component whose chain of roots never reaches a Qt class is ACCEPTED"), node("source", vec![st(rel.clone())])]);
+            }
+            if expect == "accept" && !(acc[0] && acc[2]) {
+                return node(
+                    "fail",
+                    vec![st("a document of the set that is valid by construction is refused"), node("source", vec![st(rel.clone())]), st(per_mode[0].messages.join(" | "))],
+                );
+            }
+            out.push(node("s", vec![st(rel.clone()), node("accepted", acc.iter().map(|a| atom(if *a { "y" } else { "n" })).collect()), node("errors", per_mode.iter().map(|s| num(s.errors)).collect())]));
+        }
+        node("ok", out)
+    }
+}
+
+/// `(c07-cli-set generate|reject (files …) (sources …))`: the real CLI in the root of the materialised set with all sources
+/// on one command line: exit status 0 or 1 within the time limit; status 0 iff every source's `.ui` was written; status 1
+/// only with a report; a `reject` source is never written, an `accept` source is written (generate only) whatever happens
+/// to the other sources.
+fn run_cli_set(reject: bool, req: &SetRequest) -> Sexp {
+    let bin = env::cli_binary();
+    let (guard, root) = match materialise_set(req) {
+        Ok(x) => x,
+        Err(a) => return a,
+    };
+    let mut cmd = std::process::Command::new(&bin);
+    cmd.current_dir(root.as_std_path()).env("NO_COLOR", "").env_remove("RUST_BACKTRACE").arg("generate-ui").arg("--foreign-types").arg(format!("{}/contrib/metatypes", env::REPO));
+    if reject {
+        cmd.arg("--no-dynamic-binding");
+    }
+    let err_path = guard.path().join("stderr.txt");
+    let err_file = match std::fs::File::create(&err_path) {
+        Ok(f) => f,
+        Err(e) => return node("fail", vec![st("stderr-file"), st(e.to_string())]),
+    };
+    for (p, _) in &req.sources {
+        cmd.arg(format!("./{p}"));
+    }
+    cmd.stdin(std::process::Stdio::null()).stdout(std::process::Stdio::null()).stderr(std::process::Stdio::from(err_file));
+    let mut child = match cmd.spawn() {
+        Ok(c) => c,
+        Err(e) => return node("fail", vec![st("spawn"), st(e.to_string())]),
+    };
+    let t0 = Instant::now();
+    let status = loop {
+        match child.try_wait() {
+            Ok(Some(s)) => break Some(s),
+            Ok(None) => {
+                if t0.elapsed() > CLI_TIMEOUT {
+                    let _ = child.kill();
+                    let _ = child.wait();
+                    break None;
+                }
+                std::thread::sleep(Duration::from_millis(5));
+            }
+            Err(e) => return node("fail", vec![st("wait"), st(e.to_string())]),
+        }
+    };
+    let stderr = std::fs::read(&err_path).map(|b| String::from_utf8_lossy(&b).into_owned()).unwrap_or_default();
+    let Some(status) = status else {
+        // the parse of every file alone, with the same budget, on a helper thread
+        let (tx, rx) = std::sync::mpsc::channel();
+        let texts: Vec<String> = req.files.iter().map(|(_, _, t)| t.clone()).collect();
+        std::thread::Builder::new()
+            .stack_size(64 * 1024 * 1024)
+            .spawn(move || {
+                for t in texts {
+                    let _ = UiDocument::parse(t, "Main", None);
+                }
+                let _ = tx.send(());
+            })
+            .ok();
+        let phase = if rx.recv_timeout(CLI_TIMEOUT).is_ok() { "qmluic" } else { "tree-sitter-parse" };
+        return node("fail", vec![st("cli-timeout"), node("seconds", vec![num(CLI_TIMEOUT.as_secs())]), node("phase", vec![st(phase)])]);
+    };
+    let written: Vec<bool> = req
+        .sources
+        .iter()
+        .map(|(p, _)| {
+            let path = root.join(p);
+            let stem = qml_stem(path.file_name().unwrap_or(""));
+            has_file_ignoring_case(path.parent().map(|d| d.as_std_path()).unwrap_or(root.as_std_path()), &format!("{stem}.ui"))
+        })
+        .collect();
+    let w = || node("written", written.iter().map(|x| atom(if *x { "y" } else { "n" })).collect());
+    match status.code() {
+        Some(c @ (0 | 1)) => {
+            if (c == 0) != written.iter().all(|x| *x) {
+                return node("fail", vec![st("cli-exit-vs-output"), node("exit", vec![num(c)]), w()]);
+            }
+            if c == 1 && !stderr.contains("error") {
+                return node("fail", vec![st("cli-exit-1-without-report"), st(stderr.chars().take(300).collect::<String>())]);
+            }
+            for ((p, expect), wr) in req.sources.iter().zip(&written) {
+                if expect == "reject" && *wr {
+                    return node("fail", vec![st("a document that instantiates a component whose chain of roots never reaches a Qt class is ACCEPTED"), node("source", vec![st(p.clone())])]);
+                }
+                if expect == "accept" && !reject && !*wr {
+                    return node("fail", vec![st("a document of the set that is valid by construction is refused"), node("source", vec![st(p.clone())]), st(stderr.chars().take(400).collect::<String>())]);
+                }
+            }
+            node("ok", vec![node("exit", vec![num(c)]), w()])
+        }
+        Some(c) => {
+            let msg = stderr.lines().skip_while(|l| !l.contains("panicked at")).nth(1).unwrap_or("").trim().to_owned();
+            node("fail", vec![st("cli-exit-status"), node("exit", vec![num(c)]), node("panic", vec![st(msg)])])
+        }
+        None => {
+            use std::os::unix::process::ExitStatusExt;
+            node("fail", vec![st("cli-abort"), node("signal", vec![num(status.signal().unwrap_or(0))]), node("stack-overflow", vec![atom(stderr.contains("has overflowed its stack").to_string())])])
+        }
+    }
+}
+
+/// Cases of the family `set` (c07/component_sets.rs); the second list goes to the very end of the run (cases that cost a
+/// worker if the code under test hangs).
+fn set_cases(seed: u64) -> (Vec<Case>, Vec<Case>) {
+    use component_sets as cs;
+    let sets = cs::sets(seed);
+    let files_sexp = |s: &cs::ComponentSet| node("files", s.files.iter().map(|f| node("f", vec![st(f.dir), st(f.stem.clone()), st(f.text.clone())])).collect());
+    let sources_sexp = |fs: &[&cs::SetFile]| node("sources", fs.iter().map(|f| node("s", vec![st(cs::ComponentSet::path_of(f)), atom(f.expect)])).collect());
+    let mut cases = vec![];
+    let per_set = cs::USAGES.len() * cs::FEATURES.len() + 1;
+    for (k, s) in sets.iter().enumerate() {
+        let all: Vec<&cs::SetFile> = s.files.iter().collect();
+        let cli_labels = |what: &str| {
+            let mut l = s.labels();
+            l.extend(["cli".to_owned(), "cli:set".to_owned(), format!("set:run:{what}")]);
+            l
+        };
+        // the real CLI: all files of the set on one command line …
+        cases.push(Case { kind: "oracle", labels: cli_labels("cli-all"), request: node("c07-cli-set", vec![atom("generate"), files_sexp(s), sources_sexp(&all)]) });
+        if k % 3 == (seed % 3) as usize {
+            cases.push(Case { kind: "oracle", labels: cli_labels("cli-all-reject"), request: node("c07-cli-set", vec![atom("reject"), files_sexp(s), sources_sexp(&all)]) });
+        }
+        // … and one at a time (per shape: the extra set and one more chosen by the seed)
+        if k % per_set == per_set - 1 || k % per_set == (seed as usize / 3) % (per_set - 1) {
+            for f in &all {
+                cases.push(Case { kind: "oracle", labels: cli_labels("cli-one"), request: node("c07-cli-set", vec![atom("generate"), files_sexp(s), sources_sexp(&[*f])]) });
+            }
+        }
+        // in-process: the sources whose translation does not walk a cyclic chain of super classes (a hang there would
+        // cost a worker for the rest of the run)
+        let safe: Vec<&cs::SetFile> = s.files.iter().filter(|f| !f.touches_cycle).collect();
+        if !safe.is_empty() {
+            let mut l = s.labels();
+            l.push("set:run:in-process".to_owned());
+            cases.push(Case { kind: "oracle", labels: l, request: node("c07-set", vec![files_sexp(s), sources_sexp(&safe)]) });
+        }
+    }
+    // in-process, the sets WITH a reachable cycle: at most 8 per run (distinct shapes first), chosen by the seed
+    let mut rng = Rng::fork(seed, "c07-set-slice", 0);
+    let mut cyclic: Vec<usize> = (0..sets.len()).filter(|&k| sets[k].files.iter().any(|f| f.touches_cycle)).collect();
+    rng.shuffle(&mut cyclic);
+    let mut taken: Vec<usize> = vec![];
+    for &k in &cyclic {
+        if taken.len() < 8 && !taken.iter().any(|&t| sets[t].shape == sets[k].shape) {
+            taken.push(k);
+        }
+    }
+    let mut last = vec![];
+    for k in taken {
+        let s = &sets[k];
+        let all: Vec<&cs::SetFile> = s.files.iter().collect();
+        let mut l = s.labels();
+        l.push("set:run:in-process-cyclic".to_owned());
+        last.push(Case { kind: "oracle", labels: l, request: node("c07-set", vec![files_sexp(s), sources_sexp(&all)]) });
+    }
+    (cases, last)
 }
 
 // ---------------------------------------------------------------------------------------------- identifiers (uid)
@@ -2307,6 +2624,22 @@ impl Stream for C07 {
         }
         // (f) identifiers with non-ASCII letters
         cases.extend(uid_cases(seed, scale, &pool));
+        // (g) component sets
+        let (set_first, set_last) = set_cases(seed);
+        cases.extend(set_first);
+        // (h) boundary constants under every operator, cast and conversion
+        {
+            let docs = boundary_consts::documents();
+            for i in boundary_consts::cli_sample(&docs, seed, 54) {
+                let mut labels = docs[i].labels.clone();
+                labels.extend(["cli".to_owned(), "cli:bc".to_owned()]);
+                cases.push(Case { kind: "oracle", labels, request: node("c07-cli", vec![atom(if i % 4 == 3 { "reject" } else { "generate" }), st(docs[i].text.clone())]) });
+            }
+            for d in docs {
+                cases.push(Case { kind: "oracle", labels: d.labels, request: node("c07", vec![st(d.text)]) });
+            }
+        }
+        cases.extend(set_last);
         cases
     }
 
@@ -2343,6 +2676,11 @@ impl Stream for C07 {
                 )
             }
             "c07-twin" => self.answer_twin(args),
+            "c07-set" => self.answer_set(args),
+            "c07-cli-set" => match parse_set_request(&args[1.min(args.len())..]) {
+                Some(req) => run_cli_set(args[0].as_atom() == Some("reject"), &req),
+                None => node("bad-request", vec![]),
+            },
             "c07-trivia" => self.answer_trivia(args[0].as_str().expect("text"), args[1].as_usize().expect("pos"), args[2].as_str().expect("trivia")),
             "c07-trivia-each" => self.answer_trivia_each(args[0].as_str().expect("text"), args[1].as_usize().expect("seed") as u64),
             "c07-trivia-sat" => self.answer_trivia_sat(args[0].as_str().expect("text"), args[1].as_str().expect("trivia")),
